@@ -1037,10 +1037,54 @@ pub fn build_error_types() -> Reg {
     r
 }
 
+/// a chain of named types reached ONLY from a header / parameter member: newtype of a
+/// newtype of an enum (every link is a definition that is itself a bare `$ref`)
+#[derive(Serialize, Deserialize, JsonSchema, Debug, Clone)]
+pub struct ChainOuter(pub ChainMid);
+#[derive(Serialize, Deserialize, JsonSchema, Debug, Clone)]
+pub struct ChainMid(pub ChainLeaf);
+#[derive(Serialize, Deserialize, JsonSchema, Debug, Clone)]
+#[serde(rename_all = "lowercase")]
+pub enum ChainLeaf {
+    Red,
+    Green,
+}
+#[derive(Serialize, Deserialize, JsonSchema, Debug, Clone)]
+pub struct HChain {
+    #[serde(rename = "x-chain")]
+    pub chain: ChainOuter,
+}
+
+/// a parameter struct that flattens a NEWTYPE around a struct (schemars: type object +
+/// a one-element allOf)
+#[derive(Serialize, Deserialize, JsonSchema, Debug, Clone)]
+pub struct FlatInner {
+    pub b: String,
+    pub c: Option<String>,
+    pub d: String,
+    pub e: Option<String>,
+}
+#[derive(Serialize, Deserialize, JsonSchema, Debug, Clone)]
+pub struct FlatWrapper(pub FlatInner);
+#[derive(Serialize, Deserialize, JsonSchema, Debug, Clone)]
+pub struct QFlatNewtype {
+    pub a: String,
+    #[serde(flatten)]
+    pub rest: FlatWrapper,
+}
+
+pub fn build_chains() -> Reg {
+    let mut r = Reg::new("chains");
+    r.headers::<HChain>("chain", "params|ref-chain");
+    r.query::<QFlatNewtype>("flat_newtype", "params|flatten-newtype");
+    r
+}
+
 pub fn all() -> Vec<Reg> {
     vec![
         build_main(),
         build_error_types(),
+        build_chains(),
         build_same_named_params(),
         build_same_named_bodies(),
         build_same_named_mixed(),
